@@ -40,7 +40,7 @@ META = {
     "level_note": "Structural half of C29, plus timestamps near the epoch: NOT covered is that a float / decimal / date / "
                   "time literal (and a datetime far from the epoch) denotes the same number as the prepared-statement path "
                   "(numeric comparison; Expect only asks for a number, integer or string token there). For datetimes "
-                  "1970-01-01 + {0, 1 s, 1 day + 123 ms} that are naive or carry a UTC offset of 0, +2 h or -1 h the literal "
+                  "1970-01-01 + {0, 500 us, 1 s, 1 day + 123 ms} that are naive or carry a UTC offset of 0, +2 h or -1 h the literal "
                   "must be exactly the integer wall - offset (ms) of the specification AND equal the 8-byte value "
                   "DateType.serialize sends on the prepared path. The sign of a float / decimal literal is decided "
                   "(-0.0). Statements with two and three parameters (query '(%s, %s)', positional and named) over values "
